@@ -131,7 +131,15 @@ def generate(rng, tier):
         if rng.chance(10) and new is not None:
             lines.append("\\ No newline at end of file")
     text = "\n".join(lines) + ("\n" if rng.chance(85) else "")
+    # an unreadable stream: a read error part-way through, or a line that is not valid UTF-8 (a Latin-1 text file
+    # touched by the same patch) somewhere before the end
+    streamfault = rng.choice([None] * 10 + ["read-eio", "read-eio", "latin1"])
+    latin1_at = None
+    if streamfault == "latin1":
+        ls = text.split("\n")
+        latin1_at = rng.below(max(1, len(ls) - 1))
     return {
+        "streamfault": streamfault, "latin1_at": latin1_at, "readfault_nth": rng.range(1, 4),
         "diff": text, "p": p, "filter": flt, "expected": expected, "ctx": ctx,
         "child": rng.choice(["ok"] * 5 + ["exit1", "exit101", "signal9", "signal11", "enoent"]),
         "chunks": [rng.choice(["1", "7,1,30", "64", "3,200", "1000000"]), rng.choice(["2,5", "13", "1,1,1,4096"])],
@@ -164,7 +172,16 @@ def execute(case):
             plan = ["* read 0 @0 short %s" % chunk]
             if case["eintr"] and k == 1:
                 plan.append("* read 2 @0 eintr 2")
-            inv = {"tool": "rustfmt-format-diff", "argv": argv, "stdin": case["diff"], "env": env,
+            sf = case.get("streamfault")
+            stdin = case["diff"]
+            if sf == "read-eio":
+                plan = ["* read 0 @0 short 16", "* read %d @0 errno 5" % case["readfault_nth"]]
+            elif sf == "latin1":
+                ls = case["diff"].split("\n")
+                ls.insert(case["latin1_at"], " caf\udcff")
+                import base64
+                stdin = {"b64": base64.b64encode("\n".join(ls).encode("utf-8", "surrogateescape")).decode()}
+            inv = {"tool": "rustfmt-format-diff", "argv": argv, "stdin": stdin, "env": env,
                    "hashseed": (case["hashseed"] + k * 7727) & 0xFFFFFFFF, "plan": plan, "stubplan": stubplan}
             res = core.run_inv(sc, inv)
             spawned = [e for e in res.procs[0] if e.op == "spawn"]
@@ -177,6 +194,25 @@ def execute(case):
                 if any(e.fault for e in res.procs[0]):
                     v.fired("eintr")
             det = "argv=%s chunks=%s child=%s status=%s stdout=%r" % (argv, chunk, child, res.status(), core.text_of(res.stdout)[:120])
+            if sf:
+                # the patch could not be read completely: the tool must fail (however), never act on a prefix and
+                # report success
+                fired = sf == "latin1" or any(e.fault and e.errno == 5 for e in res.procs[0])
+                v.planned("stream:" + sf)
+                if fired:
+                    v.fired("stream:" + sf)
+                    if res.exit == 0 and res.signal is None and exp:
+                        got = None
+                        if res.stubcalls and "--file-lines" in res.stubcalls[0]["argv"]:
+                            a = res.stubcalls[0]["argv"]
+                            try:
+                                got = sorted((r["file"], r["range"][0], r["range"][1]) for r in json.loads(a[a.index("--file-lines") + 1]))
+                            except ValueError:
+                                got = None
+                        if got != exp:
+                            v.add("C19:unreadable-patch-partly-applied|%s" % sf, "%s: the diff could not be read to the end, yet the tool exited 0 after asking for %s (complete answer: %s)" % (det, got, exp))
+                    v.probe("unreadable-stream")
+                continue
             ab = core.abnormal(res)
             if ab and not ab.startswith("exit:"):
                 v.add("C19:abnormal|%s" % ab, det + " stderr=%r" % core.text_of(res.stderr)[:200])
